@@ -146,6 +146,24 @@ static int op_xform(toks_t *t)
       else {
         c06_dissect(src, srcsize, sbuf, sizeof(sbuf)); c06_dissect(back, (unsigned long)bsize, ibuf, sizeof(ibuf));
         if (strcmp(sbuf, ibuf)) printf("O fail xform op %d followed by its inverse does not restore the source: %s  vs  %s\n", op, sbuf, ibuf);
+        else if (op != TJXOP_NONE) {
+          /* composition laws on the real library: the operation must equal two other operations applied in turn
+             (rot180 = vflip o hflip, rot90 = hflip o transpose, rot270 = vflip o transpose, transverse = rot180 o transpose,
+             and the same laws solved for the generators: hflip = rot180 o vflip, vflip = rot180 o hflip, transpose = vflip o rot270) */
+          static const int first[8] = { 0, TJXOP_VFLIP, TJXOP_HFLIP, TJXOP_ROT270, TJXOP_TRANSPOSE, TJXOP_TRANSPOSE, TJXOP_HFLIP, TJXOP_TRANSPOSE };
+          static const int second[8] = { 0, TJXOP_ROT180, TJXOP_ROT180, TJXOP_VFLIP, TJXOP_ROT180, TJXOP_HFLIP, TJXOP_VFLIP, TJXOP_VFLIP };
+          unsigned char *m1 = NULL, *m2 = NULL; size_t n1 = 0, n2 = 0; tjtransform x1, x2; char cbuf[1200];
+          memset(&x1, 0, sizeof(x1)); x1.op = first[op]; x1.options = TJXOPT_COPYNONE | TJXOPT_PERFECT;
+          memset(&x2, 0, sizeof(x2)); x2.op = second[op]; x2.options = TJXOPT_COPYNONE | TJXOPT_PERFECT;
+          if (tj3Transform(hx, src, srcsize, 1, &m1, &n1, &x1) < 0 || tj3Transform(hx, m1, n1, 1, &m2, &n2, &x2) < 0)
+            printf("O fail xform composition for op %d failed: %s\n", op, tj3GetErrorStr(hx));
+          else {
+            c06_dissect(m2, (unsigned long)n2, cbuf, sizeof(cbuf));
+            if (strcmp(buf, cbuf)) printf("O fail xform op %d differs from op %d followed by op %d on a whole-iMCU image: %s  vs  %s\n", op, first[op], second[op], buf, cbuf);
+            else printf("O ok\n");
+          }
+          tj3Free(m1); tj3Free(m2);
+        }
         else printf("O ok\n");
       }
       tj3Free(back);
